@@ -1,6 +1,7 @@
 """C08 — symbol entropy coding is lossless and self-delimiting."""
 import resource
 import vcheck as V
+import tieleaf
 LEVEL = "proof"
 PROP_FILE = "Properties_C08.v"
 RULE = ("cases = EncodeSymbols on arrays of 1..1e5 symbols (uniform / skewed / constant / single-outlier / all-distinct / "
@@ -25,6 +26,8 @@ def extra(ctx, lib):
                 ctx.cov["generated"] = dict(kv.split("=") for kv in l[6:].split())
     except OSError:
         pass
+    # rANS precision selection regenerated from the C++ and proved equal to the hand model (coq/Tie/Tie_Leaf.v)
+    tieleaf.record(ctx, ["ComputeRAnsPrecisionFromUniqueSymbolsBitLength", "ComputeRAnsPrecisionFromUniqueSymbolsBitLength_no_ub"])
 
 def run(ctx):
     # the extracted model recurses along lists (tables of up to 2^22 entries): lift the stack limit for the driver
